@@ -183,6 +183,7 @@ let parse_cm_tok e =
          | 'K' when v <= 250 -> Some (ConnMgr.SK (zi v))
          | 'F' when v <= 250 -> Some (ConnMgr.SF (zi v))
          | 'D' -> Some (ConnMgr.SD (zi v))
+         | 'R' -> Some (ConnMgr.SR (zi v))
          | _ -> None)
     else None
   with _ -> None
@@ -225,7 +226,7 @@ let cm_spec head toks obs =
             | None -> failwith "word"
             | Some i ->
               let tag = String.sub w 0 i and d = String.sub w (i + 1) (String.length w - i - 1) in
-              if tag = "C" then incr cancels;
+              if tag = "C" || tag = "R" then incr cancels;
               (match split_on '/' d with
                 | [o; wq; dl; n; b] ->
                   let num s = strict_int (String.sub s 1 (String.length s - 1)) in
